@@ -8,17 +8,17 @@ open WW
 
 /-! ### unfolding `step` -/
 
-theorem stepP_err_of_not_admits {s : St} {m : Msg} {no : Option Principal} {p : Principal}
-    (h : admitsP s m p = false) : stepP s m no p = .err := by
+theorem stepP_err_of_not_admits {s : St} {m : Msg} {pl : Payload} {p : Principal}
+    (h : admitsP s m pl.flow p = false) : stepP s m pl p = .err := by
   unfold stepP
   rw [h]
   rfl
 
-theorem stepP_ok_iff {s : St} {m : Msg} {no : Option Principal} {p : Principal} {s' : St} :
-    stepP s m no p = .ok s' ↔
-      (admitsP s m p = true ∧ subcallsAdmitted s m = true ∧ s' = effect s m no) := by
+theorem stepP_ok_iff {s : St} {m : Msg} {pl : Payload} {p : Principal} {s' : St} :
+    stepP s m pl p = .ok s' ↔
+      (admitsP s m pl.flow p = true ∧ subcallsAdmitted s m = true ∧ s' = effect s m pl) := by
   unfold stepP
-  by_cases h1 : admitsP s m p = true
+  by_cases h1 : admitsP s m pl.flow p = true
   · by_cases h2 : subcallsAdmitted s m = true
     · rw [if_pos h1, if_pos h2]
       constructor
@@ -36,8 +36,8 @@ theorem stepP_ok_iff {s : St} {m : Msg} {no : Option Principal} {p : Principal} 
     · intro h; cases h
     · rintro ⟨h, _, _⟩; exact absurd h h1
 
-theorem stepP_never_panics (s : St) (m : Msg) (no : Option Principal) (p : Principal) :
-    stepP s m no p ≠ .panic := by
+theorem stepP_never_panics (s : St) (m : Msg) (pl : Payload) (p : Principal) :
+    stepP s m pl p ≠ .panic := by
   unfold stepP
   split
   · split <;> simp
@@ -88,17 +88,64 @@ theorem setOwner_other (s : St) {c c' : Contract} (p : Principal) (h : c' ≠ c)
 
 /-! ### the owner rule in terms of principals -/
 
-theorem holds_owner_iff (s : St) (c : Contract) (p : Principal) :
-    holds s c .owner p = true ↔ p = s.owner c := by
+theorem holds_owner_iff (s : St) (c : Contract) (sel : FlowSel) (p : Principal) :
+    holds s c sel .owner p = true ↔ p = s.owner c := by
   simp [holds]
 
-theorem holds_self_iff (s : St) (c : Contract) (p : Principal) :
-    holds s c .self p = true ↔ p = .contract c := by
+theorem holds_self_iff (s : St) (c : Contract) (sel : FlowSel) (p : Principal) :
+    holds s c sel .self p = true ↔ p = .contract c := by
   simp [holds]
+
+/-! ### the loan flag and the flows -/
+
+/-- no rule looks at the loan flag -/
+theorem holds_withLoan (s : St) (b : Bool) (c : Contract) (sel : FlowSel) (rule : AuthRule) (p : Principal) :
+    holds (s.withLoan b) c sel rule p = holds s c sel rule p := by
+  cases rule <;> rfl
+
+/-- every guarded-by-loan entry point is permissionless: no variant with a sender rule is loan-guarded -/
+theorem rule_not_loanGuarded : ∀ m : Msg, (requires m).isSome = true → loanGuarded m = false :=
+  forall_msg_of_all (by decide)
+
+/-- for a variant with a sender rule the verdict IS the rule, in every state (loan in flight or not) -/
+theorem admitsP_of_rule {s : St} {m : Msg} {rule : AuthRule} (sel : FlowSel) (p : Principal)
+    (hr : requires m = some rule) : admitsP s m sel p = holds s m.contract sel rule p := by
+  have hg : loanGuarded m = false := rule_not_loanGuarded m (by rw [hr]; rfl)
+  unfold admitsP
+  rw [hr, hg]
+  simp
+
+@[simp] theorem flowEffect_owner (s : St) (m : Msg) (sel : FlowSel) : (flowEffect s m sel).owner = s.owner := by
+  unfold flowEffect
+  split
+  · split <;> rfl
+  · rfl
+
+@[simp] theorem flowEffect_loan (s : St) (m : Msg) (sel : FlowSel) : (flowEffect s m sel).loan = s.loan := by
+  unfold flowEffect
+  split
+  · split <;> rfl
+  · rfl
+
+@[simp] theorem ownerEffect_flows (s : St) (m : Msg) (no : Option Principal) : (ownerEffect s m no).flows = s.flows := by
+  unfold ownerEffect
+  split <;> rfl
+
+@[simp] theorem ownerEffect_loan (s : St) (m : Msg) (no : Option Principal) : (ownerEffect s m no).loan = s.loan := by
+  unfold ownerEffect
+  split <;> rfl
+
+/-- the flow a selector denotes is a stored flow that matches it -/
+theorem resolve_some {s : St} {sel : FlowSel} {f : Flow} (h : s.resolve sel = some f) :
+    f ∈ s.flows ∧ f.matches sel = true := by
+  unfold St.resolve at h
+  exact ⟨List.mem_of_find?_eq_some h, List.find?_some (p := fun f : Flow => f.matches sel) h⟩
 
 /-- the state after the transfer script, computed -/
 def afterOwner : Contract → Principal
   | .terraswap_router | .terraswap_token | .incentive => .acct .initOwner
   | _ => .acct .newOwner
+
+def afterSt : St := { St.init with owner := afterOwner }
 
 end WW.Auth
